@@ -130,8 +130,8 @@ def trigOf (j : Json) : P (Rat × Rat × Rat) := do
   | [a, c, s] => pure (← asRat a, ← asRat c, ← asRat s)
   | _ => throw "trig: expected [angle, cos, sin]"
 
-def laneletOf (j : Json) : P (Int × List CR.Geom.Pt) := do
-  pure (← getInt j "id", ← getList gptOf j "ring")
+def laneletOf (j : Json) : P (Int × List CR.Geom.Pt × List CR.Geom.Pt) := do
+  pure (← getInt j "id", ← getList gptOf j "left", ← getList gptOf j "right")
 
 def geoHandle (a : Json) : P Json := do
   let lanes ← getList laneletOf a "lanelets"
@@ -148,7 +148,7 @@ def geoHandle (a : Json) : P Json := do
       pos := fun o t => ((stepAt o t).map (·.pos)).getD ⟨0, 0⟩
       ori := fun o t => ((stepAt o t).map (·.ori)).getD 0 }
   -- `LaneletNetwork.create_from_lanelet_list`: one polygon object per lanelet
-  let ls : List CR.Index.Lanelet := (lanes.zipIdx).map fun (e, i) => ⟨e.1, ⟨i, e.2⟩⟩
+  let ls : List CR.Index.Lanelet := (lanes.zipIdx).map fun (e, i) => ⟨e.1, i, e.2.1, e.2.2⟩
   let n := CR.Index.fromList id ls
   let E := CR.Assign.envOf (exactGeo tol tr D) n
   pure <| Json.arr (steps.map fun e => Json.arr #[intJ e.o, intJ e.t, setJ (E.cen e.o e.t), setJ (E.shp e.o e.t)]).toArray
